@@ -34,7 +34,7 @@ SIZES = (0, 1, 256, 65537)
 ENV_NAMES = ("A", "B", "AB", "__env_overrides__")
 ENV_VALUES = (None, "", "x", "A")
 OVR_NAMES = ("A", "B")
-OVR_VALUES = ("", "x", "B")
+OVR_VALUES = ("", "x", "B", "__env_overrides__")
 
 
 def maps(keys, values, maxlen):
@@ -191,7 +191,14 @@ def record(acc, seen, label, shell, inp, env, ovr):
     acc.evaluations += 1
     prev = seen.setdefault(dg, c)
     if prev != c:
-        acc.violation(f"C13|inp-collision|{h8(repr(sorted([repr(prev), repr(c)])))}",
+        key = f"C13|inp-collision|{h8(repr(sorted([repr(prev), repr(c)])))}"
+        # known root cause: the tracked variables and the overrides are two flat sequences of
+        # (str, str) words separated by the marker word __env_overrides__; a tracked variable
+        # with that very name (or an override with that value) imitates the section boundary
+        words = [w for cfg in (prev, c) for kv in list(cfg[3]) + list(cfg[4]) for w in kv]
+        if "__env_overrides__" in words and prev[:3] == c[:3]:
+            key = "C13|inp-collision|marker-word-as-variable-name-or-override-value"
+        acc.violation(key,
                       {"why": "two different step configurations share an input digest",
                        "a": repr(prev), "b": repr(c)}, None)
     # permutations of every map give the same digest
